@@ -44,6 +44,7 @@ def main():
     ap.add_argument("--only", default="")
     ap.add_argument("--jobs", type=int, default=3)
     ap.add_argument("--out", default=os.path.join(HERE, "SENSITIVITY.md"))
+    ap.add_argument("--merge", action="store_true", help="with --only: replace the rows of those properties in sensitivity_results.json and rewrite the table")
     ap.add_argument("--harvest", action="store_true", help="copy one counter-example per caught seeded change into replays/<ID>/seeded_<name>.json")
     a = ap.parse_args()
     global HARVEST
@@ -74,6 +75,17 @@ def main():
             print("%s %-6s %-55s rc=%d %s" % (r[0], r[1], os.path.relpath(r[2], HERE), r[3], (r[4][0][:90] if r[4] else "")), flush=True)
     rows.sort(key=lambda r: (r[0], r[1], r[2]))
     missed = [r for r in rows if r[3] != 1]
+    # results are kept as JSON next to the table, so that a later run restricted to some properties (--only ... --merge) can replace just their rows
+    store = os.path.join(HERE, "sensitivity_results.json")
+    if a.merge and only and os.path.exists(store):
+        old_rows = [tuple(r) for r in json.load(open(store))["rows"]]
+        new_paths = set(os.path.relpath(r[2], HERE) for r in rows)
+        keep = [(pid, kind, os.path.join(HERE, path), rc, keys) for pid, kind, path, rc, keys in old_rows if pid not in only and path not in new_paths]
+        rows = sorted(keep + rows, key=lambda r: (r[0], r[1], r[2]))
+        only = set()
+    if not only:
+        json.dump({"tier": a.tier, "rows": [[pid, kind, os.path.relpath(path, HERE), rc, keys[:2]] for pid, kind, path, rc, keys in rows]}, open(store, "w"), indent=0)
+    missed_all = [r for r in rows if r[3] != 1]
     if not only:
         with open(a.out, "w") as f:
             f.write("# Sensitivity runs (%s tier)\n\nEvery kept change applied to a scratch copy of /repo (tools/mutant.sh), then `./vcheck <ID> --tier %s` against it.\n"
@@ -88,7 +100,7 @@ def main():
                     except Exception:
                         pass
                 f.write("| %s | %s | %s | %s | %s |\n" % (pid, kind, what, "yes" if rc == 1 else ("NO (rc=%d)" % rc), "; ".join(k[:110].replace("|", "/") for k in keys[:2])))
-            f.write("\n%d changes, %d caught.\n" % (len(rows), len(rows) - len(missed)))
+            f.write("\n%d changes, %d caught.\n" % (len(rows), len(rows) - len(missed_all)))
     print("%d changes, %d not caught" % (len(rows), len(missed)))
     return 1 if missed else 0
 
